@@ -183,7 +183,10 @@ var (
 	tbuckets   = []string{"n", "nanos", "s", "sec", "seconds", "m", "min", "minutes", "h", "hour", "d", "day", "days", "mo", "mon", "months", "y", "year", "years", "", "x", "secondsx", "M", "H"}
 	delims     = []string{" ", ",", ", ", "", "\t", "ab", "\x00", "\\", "日", "\xff", "aa", "||", "\n"}
 	tables     = []string{"a b\nc d\n", "a b", "a\nb\n", "#c\na b", "", "\n\n", "a b c", "a\tb\r\nc\td", "k v\nk w", "\x00 x", "a " + strings.Repeat("y", 200)}
-	formulas   = []string{"1+2", "2*[0]", "[0]+[1]", "[x]*2", "x+y", "(1+2)*3", "-[0]", "[0] % [1]", "5 % 0", "1 << [0]", "1 >> [0]", "[0] << 64", "[0] >> -1", "1/0", "0/0", "2^1024", "(-8)^0.5", "abs(-4)", "sqrt(-1)", "log(0)", "round(2.5)", "!(1>2)", "![0]", "1 && 0 || 1", "[0] & [1]", "[0] | 0xff", "0b101", "0x1BC", "1e308*10", "[-1]", "[99]", "[" + maxI64 + "]", "[" + pastI64 + "]", "[]", "[", "]", "[[0]]", "(", ")", "()", "(()", "1+", "+", "-", "2 * -", "- -", "-(-(-1))", "1 2", "1 (2)", "(1)(2)", "2(3)", "abs", "abs(", "abs()", "abs 3", "nope(3)", "1 $ 2", "1 = 2", "1 == 2", "1 <= 2", "1 < = 2", "1<<2", "1< <2", "<<", "&&", "& &", "^", "2^", "^2", "1..2", "1e", "0x", "0b2", "010", "9" + maxI64, "1 % -1", minI64 + " % -1", minI64 + " / -1", "[0] % 0.5", "tan(1.5707963267948966)", "exp(1000)", "exp2(-2000)", "asin(2)", "a.b", "a-b", "x y", "é", "\x00", "\xff"}
+	formulas   = []string{"1+2", "2*[0]", "[0]+[1]", "[x]*2", "x+y", "(1+2)*3", "-[0]", "[0] % [1]", "5 % 0", "1 << [0]", "1 >> [0]", "[0] << 64", "[0] >> -1", "1/0", "0/0", "2^1024", "(-8)^0.5", "abs(-4)", "sqrt(-1)", "log(0)", "round(2.5)", "!(1>2)", "![0]", "1 && 0 || 1", "[0] & [1]", "[0] | 0xff", "0b101", "0x1BC", "1e308*10", "[-1]", "[99]", "[" + maxI64 + "]", "[" + pastI64 + "]", "[]", "[", "]", "[[0]]", "(", ")", "()", "(()", "1+", "+", "-", "2 * -", "- -", "-(-(-1))", "1 2", "1 (2)", "(1)(2)", "2(3)", "abs", "abs(", "abs()", "abs 3", "nope(3)", "1 $ 2", "1 = 2", "1 == 2", "1 <= 2", "1 < = 2", "1<<2", "1< <2", "<<", "&&", "& &", "^", "2^", "^2", "1..2", "1e", "0x", "0b2", "010", "9" + maxI64, "1 % -1", minI64 + " % -1", minI64 + " / -1", "[0] % 0.5", "tan(1.5707963267948966)", "exp(1000)", "exp2(-2000)", "asin(2)", "a.b", "a-b", "x y", "é", "\x00", "\xff",
+		// function names in other spellings: upper case, and letters that only case FOLDING maps onto ASCII
+		// (long s U+017F, Kelvin sign U+212A, dotted capital I U+0130)
+		"SQRT(16)", "Abs(0-2)", "ſin(1)", "coſ(0)", "abſ(-4)", "ſqrt(4)+1", "aſin(1)", "\u212aos(1)", "s\u0130n(1)", "ſ", "ſ(1)", "abs(ſ)", "EXP(1)", "lOg(2)"}
 	constStrs  = []string{"x", "ab", "-", "", " ", "#", "abc", "0", "é", "\x00", "xyzxyzxyz", "="}
 	constArrs  = []string{"a", "a\x00b\x00c", "", "\x00", "1\x002\x003", "\x00\x00"}
 	keyNames   = []string{"k", "key", "a", "x", "n", "src", "line", ".", "#", "@", ".#", "val", "a b", "é", "", "1.0", "-", "k2"}
